@@ -64,6 +64,52 @@ def step (st : St) : List String → St × String
       let r := a.computeClawback wireM t
       ({ acct := some r.1 }, s!"clawed={showAmt r.2} {showAccount r.1}")
     | _, _ => (st, "bad-op")
+  -- ---- message level (stateless: the pre-state is part of the op line) ----
+  | ["mreset"] => (st, "ok")
+  | ["mtime", _] => (st, "ok")
+  | ["mcreate", kind, pre, funder, start, l, v, merge] =>
+    -- kind = C: MsgCreateClawbackVestingAccount ; kind = A: MsgConvertIntoVestingAccount (ApplyVestingSchedule)
+    match parseWAcct pre, funder.toNat?, start.toInt?, parsePeriods l, parsePeriods v with
+    | some pre, some funder, some start, some l, some v =>
+      match msgSchedules l v with
+      | none => (st, "err:unequal")
+      | some (l', v', coins) =>
+        let mergeB := merge == "1"
+        match pre with
+        | .none => (st, s!"ok {showWAcct (newAccount funder start coins l' v')}")
+        | .plain =>
+          if kind == "C" then (st, "err:exists")
+          else (st, s!"ok {showWAcct (newAccount funder start coins l' v')}")   -- EthAccount converted in place
+        | .vest a =>
+          if !mergeB then (st, "err:exists")
+          else if a.funder ≠ funder then (st, "err:funder")
+          else
+            let gs := if kind == "C" then start else applyGrantStart Haqq.Facts.vestingApplyUsesMin a.start start
+            let a' := a.addGrant gs l' v' coins
+            -- addGrant resets the delegation tracking from staking state (nothing delegated in these runs)
+            (st, s!"ok {showWAcct { a' with delegatedFree := Amt.zero, delegatedVesting := Amt.zero }}")
+    | _, _, _, _, _ => (st, "bad-op")
+  | ["mclaw", pre, msgFunder, now] =>
+    match parseWAcct pre, msgFunder.toNat?, now.toInt? with
+    | some pre, some mf, some now =>
+      let acc := match pre with | .vest a => some a | _ => none
+      match clawbackMsg wireM acc mf false now with
+      | .ok (a', amt) => (st, s!"ok clawed={showAmt amt} {showWAcct a'}")
+      | .error .notVesting => (st, "err:notVesting")
+      | .error .noPeriods => (st, "err:noPeriods")
+      | .error .notFunder => (st, "err:notFunder")
+      | .error .blocked => (st, "err:blocked")
+    | _, _, _ => (st, "bad-op")
+  | ["mfunder", pre, msgFunder, newFunder] =>
+    match parseWAcct pre, msgFunder.toNat?, newFunder.toNat? with
+    | some pre, some mf, some nf =>
+      let acc := match pre with | .vest a => some a | _ => none
+      match updateFunderMsg acc mf nf false with
+      | .ok a' => (st, s!"ok {showWAcct a'}")
+      | .error .notVesting => (st, "err:notVesting")
+      | .error .notFunder => (st, "err:notFunder")
+      | .error _ => (st, "err:other")
+    | _, _, _ => (st, "bad-op")
   | _ => (st, "bad-op")
 
 end Haqq.Driver.C09
